@@ -30,11 +30,12 @@ READS = {"map:get", "map:get_mut", "map:contains_key"}
 
 # (cell name, required facts, forbidden facts, expected effects)
 TABLE = [
-    ("Connect/absent", {"op:Connect", "slot:absent", "flow_id:nonzero"}, set(), {"map:insert", "send:Acknowledge", "accept-queue"}),
-    ("Connect/id-zero", {"op:Connect", "slot:absent", "flow_id:zero"}, set(), {"send:Reset"}),
+    ("Connect/absent", {"op:Connect", "slot:absent", "flow_id:nonzero"}, set(), {"mk-stream", "map:insert", "send:Acknowledge", "accept-queue"}),
+    # (the id-0 test may come before or after the table lookup: the cell is "id is zero", whatever the lookup said)
+    ("Connect/id-zero", {"op:Connect", "flow_id:zero"}, set(), {"send:Reset"}),
     ("Connect/in-use", {"op:Connect", "slot:present"}, set(), {"send:Reset"}),
     ("Acknowledge/Established", {"op:Acknowledge", "slot:Established"}, set(), {"credit+=", "wake"}),
-    ("Acknowledge/Requested", {"op:Acknowledge", "slot:Requested"}, set(), {"establish", "oneshot:Some"}),
+    ("Acknowledge/Requested", {"op:Acknowledge", "slot:Requested"}, set(), {"mk-stream", "establish", "oneshot:Some"}),
     ("Acknowledge/BindRequested", {"op:Acknowledge", "slot:BindRequested"}, set(), {"send:Reset"}),
     ("Acknowledge/absent", {"op:Acknowledge", "slot:absent"}, set(), {"send:Reset"}),
     ("Finish/absent", {"op:Finish", "slot:absent"}, {"slot:present"}, {"send:Reset"}),
